@@ -60,12 +60,34 @@ func poolGetCall(v ssa.Value) *ssa.Call {
 			if core.StaticName(&x.Call) == "(*sync.Pool).Get" {
 				return x
 			}
+			// a wrapper all of whose returns are the pool's Get result is the pool's Get
+			if f := x.Call.StaticCallee(); f != nil && depth < 3 {
+				if inner := pureGetWrapper(f); inner != nil {
+					return inner
+				}
+			}
 			return nil
 		default:
 			return nil
 		}
 	}
 	return nil
+}
+
+// pureGetWrapper: every return of f yields (a type assertion of) (*sync.Pool).Get and nothing else.
+func pureGetWrapper(f *ssa.Function) *ssa.Call {
+	if len(f.Blocks) == 0 || f.Signature.Results().Len() != 1 {
+		return nil
+	}
+	var inner *ssa.Call
+	for _, r := range core.Returns(f) {
+		g := poolGetCall(core.RetOperand(r, 0))
+		if g == nil {
+			return nil
+		}
+		inner = g
+	}
+	return inner
 }
 
 func checkC04(c *core.Ctx) {
@@ -262,7 +284,19 @@ func checkC04(c *core.Ctx) {
 				}
 				if name == "(*sync.Pool).Get" {
 					nGet++
-					r2.Check(fn == np, core.FnKey(fn)+"/pool.Get", p.InstrPos(ins), "Get in NewPacket", "packet pool blocks are taken outside NewPacket")
+					okFn := fn == np
+					if !okFn && pureGetWrapper(fn) != nil {
+						// a plain wrapper of Get, used by NewPacket only
+						okFn = true
+						if n := p.CG(false).Nodes[fn]; n != nil {
+							for _, e := range n.In {
+								if e.Caller.Func != np {
+									okFn = false
+								}
+							}
+						}
+					}
+					r2.Check(okFn, core.FnKey(fn)+"/pool.Get", p.InstrPos(ins), "Get in NewPacket (or in a plain wrapper only NewPacket calls)", "packet pool blocks are taken outside NewPacket")
 					return
 				}
 				nPut++
